@@ -50,6 +50,8 @@ type fnSpec struct {
 	uses         map[string]bool // translated functions this one calls (filled while translating)
 	deleteEff    string            // `delete(m, k)` on a state map is also recorded as this effect (constructor:constant)
 	tbFatal      bool              // the function reports by t.Fatalf; its translation returns whether it passed
+	valueLoops   bool              // loops return Sum (function result) (loop state) instead of taking the code after them as their base case (needed when a loop is nested in another and falls back into it)
+	heartbeats   int               // elaboration budget of the generated module (0 = Lean's default); a large nest of local recursive functions needs more than the default to be compiled, never "unlimited"
 	joins        bool              // translate the code after a branching statement once, as a local join point (see tryJoin)
 	selfRec      bool              // the function calls itself: the generated definition takes the function to call as its first argument (`self`)
 	extConsts    map[string]string // constants of package constants the function names -> their value (checked against constants/const.go)
@@ -874,7 +876,63 @@ var chkSpecs = []fnSpec{
 	},
 }
 
+
+// ---- the reconciler (rib/reconciler/reconcile.go)
+
+var reconSpecs = []fnSpec{
+	{
+		file: "rib/reconciler/reconcile.go", goName: "diff", callAs: "diff§", leanName: "reconDiff", joins: true, valueLoops: true, heartbeats: 2000000,
+		params: []param{
+			{goName: "src", goType: "*rib.RIB", lean: "src", kd: kPtr("Unit")},
+			{goName: "dst", goType: "*rib.RIB", lean: "dst", kd: kPtr("Unit")},
+			{goName: "explicitReplace", goType: "map[spb.AFTType]bool", lean: "explicitReplace", kd: kind{k: "set"}},
+			{goName: "id", goType: "*atomic.Uint64", lean: "idP", kd: kStr, skip: true},
+		},
+		goRets: "*ReconcileOps, error", rets: []string{"ptr:Unit", "err"},
+		oracleParams: []param{
+			{goName: "§srcC", lean: "srcC", kd: kind{k: "map", s: "ReconNI"}},
+			{goName: "§srcErr", lean: "srcErr", kd: kind{k: "status"}},
+			{goName: "§dstC", lean: "dstC", kd: kind{k: "map", s: "ReconNI"}},
+			{goName: "§dstErr", lean: "dstErr", kd: kind{k: "status"}},
+			{goName: "§opsTok", lean: "opsTok", kd: kPtr("Unit"), nonnil: true},
+			{goName: "§deepEq", lean: "deepEq", kd: kind{k: "fun", t: []kind{kBool, kPtr("ReconEntS"), kPtr("ReconEntS")}}},
+			{goName: "§mk4", lean: "mk4", kd: kind{k: "fun", t: []kind{kPtr("ReconOp"), kEnum, kStr, kNat, kPtr("ReconEntS")}}},
+			{goName: "§mk6", lean: "mk6", kd: kind{k: "fun", t: []kind{kPtr("ReconOp"), kEnum, kStr, kNat, kPtr("ReconEntS")}}},
+			{goName: "§mkM", lean: "mkM", kd: kind{k: "fun", t: []kind{kPtr("ReconOp"), kEnum, kStr, kNat, kPtr("ReconEntS")}}},
+			{goName: "§mkG", lean: "mkG", kd: kind{k: "fun", t: []kind{kPtr("ReconOp"), kEnum, kStr, kNat, kPtr("ReconEntS")}}},
+			{goName: "§mkN", lean: "mkN", kd: kind{k: "fun", t: []kind{kPtr("ReconOp"), kEnum, kStr, kNat, kPtr("ReconEntS")}}},
+			{goName: "§mkErr", lean: "mkErr", kd: kind{k: "statusval"}},
+		},
+		oracles: map[string]oracle{
+			"src.RIBContents":    {results: []string{"§srcC", "§srcErr"}},
+			"dst.RIBContents":    {results: []string{"§dstC", "§dstErr"}},
+			"NewReconcileOps":    {results: []string{"§opsTok"}},
+			"reflect.DeepEqual":  {results: []string{"§deepEq@0,1"}},
+			"v4Operation":        {results: []string{"§mk4@0,1,2,3", "§mkErr"}, errOf: true},
+			"v6Operation":        {results: []string{"§mk6@0,1,2,3", "§mkErr"}, errOf: true},
+			"mplsOperation":      {results: []string{"§mkM@0,1,2,3", "§mkErr"}, errOf: true},
+			"nhgOperation":       {results: []string{"§mkG@0,1,2,3", "§mkErr"}, errOf: true},
+			"nhOperation":        {results: []string{"§mkN@0,1,2,3", "§mkErr"}, errOf: true},
+			"*.GetOrCreateAfts":  {results: []string{}},
+		},
+		state: []stateField{
+			{goExpr: "id", lean: "id", kd: kNat},
+			{goExpr: "ops.Add.NH", lean: "addNH", kd: kind{k: "list", s: "ReconOp", elemNN: true}},
+		{goExpr: "ops.Add.NHG", lean: "addNHG", kd: kind{k: "list", s: "ReconOp", elemNN: true}},
+		{goExpr: "ops.Add.TopLevel", lean: "addTop", kd: kind{k: "list", s: "ReconOp", elemNN: true}},
+		{goExpr: "ops.Replace.NH", lean: "repNH", kd: kind{k: "list", s: "ReconOp", elemNN: true}},
+		{goExpr: "ops.Replace.NHG", lean: "repNHG", kd: kind{k: "list", s: "ReconOp", elemNN: true}},
+		{goExpr: "ops.Replace.TopLevel", lean: "repTop", kd: kind{k: "list", s: "ReconOp", elemNN: true}},
+		{goExpr: "ops.Delete.NH", lean: "delNH", kd: kind{k: "list", s: "ReconOp", elemNN: true}},
+		{goExpr: "ops.Delete.NHG", lean: "delNHG", kd: kind{k: "list", s: "ReconOp", elemNN: true}},
+		{goExpr: "ops.Delete.TopLevel", lean: "delTop", kd: kind{k: "list", s: "ReconOp", elemNN: true}},
+		},
+		typeMap: map[string]string{"aft.RIB": "ReconNI"},
+	},
+}
+
 func init() {
+	specs = append(specs, reconSpecs...)
 	specs = append(specs, chkSpecs...)
 	specs = append(specs, ribSmallSpecs...)
 	specs = append(specs, ribTableSpecs...)
